@@ -137,4 +137,16 @@ theorem source_sum_sizes (len : Nat) (h : Nat.sqrt len < 2147483648)
     (Gen.Pure.SumSizesSqroot (len : Int)).toInt = ((Delta.sumSizes len).bl : Int) :=
   ⟨PureTie.sumSizes_count_tied len h hc, PureTie.sumSizes_blockLength_tied len h⟩
 
-end C02
+
+/-- **`simpleSendToken` as the source has it** (token.go, translated from /repo on every run with the
+connection as an output log and `ms.ptr` as the file's bytes — which `source_window_exact` proves of
+the real `ptr`): an unmatched run of `n` bytes at `offset` leaves as exactly the model's chunks —
+non-empty, at most `chunkSize` (`literal_chunks_le_chunkSize`), concatenating to the run — each as a
+length word followed by its bytes, then the token word `-(token+1)`, nothing for the flush token -2;
+no byte lost, duplicated or reordered, for every run length. -/
+theorem source_send_token (token : Int32) (offset n : Int) (file : Bytes) (out : List Go.Out) (h0 : 0 ≤ offset) (hn : 0 ≤ n)
+    (hin : offset + n ≤ (file.length : Int)) :
+    Gen.Pure.sendToken token offset n file out =
+      .ok (out ++ PureTie.emitChunks (cutChunks chunkSize ((file.drop offset.toNat).take n.toNat)) ++
+            (if token = -2 then [] else [Go.Out.i32 (-(token + 1))])) :=
+  PureTie.sendToken_tied token offset n file out h0 hn hin
